@@ -78,8 +78,13 @@ try:
             parts = key.split("::")
             path = parts[0].rsplit(".", 1)[0].replace(".", "/") + ".py"
             tid = path + "::" + parts[0].rsplit(".", 1)[1] + "::" + "::".join(parts[1:])
-            t2 = sh("/venv/bin/python", "-m", "pytest", "-q", "-p", "no:cacheprovider", "--timeout=900", tid, cwd=wt, timeout=1800)
-            if " passed" not in (t2.stdout.strip().splitlines() or [""])[-1]:
+            ok_alone = False
+            for _ in range(2):  # unseeded stochastic tests: two attempts on their own
+                t2 = sh("/venv/bin/python", "-m", "pytest", "-q", "-p", "no:cacheprovider", "--timeout=900", tid, cwd=wt, timeout=1800)
+                if " passed" in (t2.stdout.strip().splitlines() or [""])[-1] and " failed" not in (t2.stdout.strip().splitlines() or [""])[-1]:
+                    ok_alone = True
+                    break
+            if not ok_alone:
                 real.append(key)
         res["subset_flaky"] = [k for k in regress if k not in real]
         regress = real
